@@ -14,7 +14,7 @@ func vpObsBig(tag string, x *big.Int) {
 //vp:prop SELF
 //vp:maxvalues 40
 func vpH_SELF_bigArith() {
-	ab, bb := vpBytes("a", 9), vpBytes("b", 3)
+	ab, bb := vpBytes("a", 2), vpBytes("b", 1)
 	a, b := new(big.Int).SetBytes(ab), new(big.Int).SetBytes(bb)
 	if vpBool("negA") {
 		a.Neg(a)
@@ -43,9 +43,9 @@ func vpH_SELF_bigArith() {
 	n := big.NewInt(int64(vpU64("n")))
 	vpObsBig("newint", n)
 	vpObsBig("lsh", new(big.Int).Lsh(a, 13))
-	var buf [12]byte
+	var buf [4]byte
 	new(big.Int).Abs(a).FillBytes(buf[:])
-	vpObserve("fill", uint64(buf[3])<<8|uint64(buf[11]))
+	vpObserve("fill", uint64(buf[2])<<8|uint64(buf[3]))
 }
 
 func vpB2U(b bool) uint64 {
